@@ -23,5 +23,13 @@ for name, prop, what, needs, ran, det, head in rows:
 out += ["", "History: the first versions of the checks missed `C06`, `C10` (by its own check), `C11`, `C14`, `C16` and `C20`; the workload",
         "generator and three oracles were strengthened (NaN/inf metric values, `restrict_configurations`, `allow_duplicates`, delivered-stream",
         "rule for C10, level-presence rule for `rungs_and_last` in C14, NaN-reporting scripts for synchronous Hyperband) until each was reported.", ""]
+nk = os.path.join(d, "not-kept")
+if os.path.isdir(nk):
+    out += ["## Proposed by sub-agents, not kept", ""]
+    for name in sorted(os.listdir(nk)):
+        note = os.path.join(nk, name, "NOTE.md")
+        if os.path.exists(note):
+            out.append("* `not-kept/%s`: %s" % (name, open(note).read().strip().replace("\n", " ")))
+    out += ["* two further proposals repeated a mechanism that was already kept (`C02` fourth round = `C18-r3`, `C13` fifth round = `C14-r4`) and were dropped.", ""]
 open(os.path.join(d, "README.md"), "w").write("\n".join(out))
 print("\n".join(out[9:9 + len(rows) + 2]))
